@@ -243,6 +243,23 @@ static void run_case(int k, const std::string & head, const std::string & body)
                DataNode * nd = S.GetDataNode(a[1].c_str());
                if (nd) (void) nd->RemoveIndexEntryAt((uint32) atoi(a[2].c_str()), &S);
             }
+            else if (v == "xia")
+            {
+               // a subclass that respects InsertIndexEntryAt()'s documented preconditions (key is a child that is not in the
+               // index yet, valid position) and, editing an index by hand, turns the own-subtree short cut off
+               api = true;
+               DataNode * nd = S.GetDataNode(a[1].c_str());
+               const uint32 pos = (uint32) atoi(a[2].c_str());
+               if (nd)
+               {
+                  std::vector<std::string> ix = IndexOf(*nd);
+                  if ((nd->HasChild(a[3].c_str()))&&(std::find(ix.begin(), ix.end(), a[3]) == ix.end())&&(pos <= ix.size()))
+                  {
+                     (void) nd->InsertIndexEntryAt(pos, &S, a[3].c_str());
+                     S._indexingPresent = true;
+                  }
+               }
+            }
             else if (v == "dt") {w.CloseClient(sid); detach = true;}
             else if (v == "xmv") {api = true; (void) S.MoveIndexEntries(a[1].c_str(), before_str(a[2]).c_str());}
             else if (v == "xrm") {api = true; (void) S.RemoveDataNodes(a[1].c_str());}
